@@ -319,7 +319,7 @@ impl<'de> Deserialize<'de> for RequestObject {
     }
 }
 
-fn deserialize_request_object<'de, D>(deserializer: D) -> Result<Request, D::Error>
+pub(crate) fn deserialize_request_object<'de, D>(deserializer: D) -> Result<Request, D::Error>
 where
     D: Deserializer<'de>,
 {
